@@ -121,6 +121,47 @@ func Equal(a, b interface{}) bool {
 
 type checker struct {
 	B, R M
+	// variables bound by the result but not given: each needs a place in the pattern where it met exactly
+	// the value it is bound to (a binding has to come from the message)
+	q    map[string]uint
+	full uint64 // the bit of the mask in which all of q are justified
+}
+
+// A witness set is a bit set over masks: bit k is set iff the pattern part is contained in the message
+// part by some embedding that justifies exactly the variables of mask k.  0 = not contained.
+type wset = uint64
+
+const plainOK wset = 1 // contained, nothing justified
+
+func conj(a, b wset) wset {
+	if a == 0 || b == 0 {
+		return 0
+	}
+	if a == plainOK {
+		return b
+	}
+	if b == plainOK {
+		return a
+	}
+	var out wset
+	for i := uint(0); i < 64; i++ {
+		if a&(1<<i) == 0 {
+			continue
+		}
+		for j := uint(0); j < 64; j++ {
+			if b&(1<<j) != 0 {
+				out |= 1 << (i | j)
+			}
+		}
+	}
+	return out
+}
+
+func (c *checker) just(v string, exact bool) wset {
+	if i, need := c.q[v]; need && exact {
+		return 1 << (uint(1) << i)
+	}
+	return plainOK
 }
 
 // Valid checks one returned binding set R of Match(P, Msg, B) against the
@@ -147,6 +188,8 @@ func Valid(p, msg interface{}, b, r M) string {
 			allowed[plain] = true
 		}
 	}
+	c := &checker{B: b, R: r, q: map[string]uint{}}
+	var qs []string
 	for k := range r {
 		if _, given := b[k]; given {
 			continue
@@ -154,37 +197,55 @@ func Valid(p, msg interface{}, b, r M) string {
 		if !allowed[k] {
 			return "binds-variable-not-in-pattern"
 		}
+		qs = append(qs, k)
 	}
-	c := &checker{B: b, R: r}
-	if !c.contained(p, msg) {
+	sort.Strings(qs)
+	if len(qs) <= 6 { // 2^6 masks fit the bit set; larger results are checked for containment only
+		for i, k := range qs {
+			c.q[k] = uint(i)
+		}
+	}
+	c.full = 1 << ((uint(1) << uint(len(c.q))) - 1)
+	w := c.contained(p, msg)
+	if w == 0 {
 		return "instantiated-pattern-not-contained-in-message"
+	}
+	if w&c.full == 0 {
+		return "binding-not-taken-from-the-message"
 	}
 	return ""
 }
 
-func (c *checker) contained(p, m interface{}) bool {
+func ok(b bool) wset {
+	if b {
+		return plainOK
+	}
+	return 0
+}
+
+func (c *checker) contained(p, m interface{}) wset {
 	switch pv := p.(type) {
 	case nil:
-		return m == nil
+		return ok(m == nil)
 	case bool:
-		y, ok := m.(bool)
-		return ok && y == pv
+		y, is := m.(bool)
+		return ok(is && y == pv)
 	case float64:
-		y, ok := m.(float64)
-		return ok && y == pv
+		y, is := m.(float64)
+		return ok(is && y == pv)
 	case string:
 		if !IsVar(pv) {
-			y, ok := m.(string)
-			return ok && y == pv
+			y, is := m.(string)
+			return ok(is && y == pv)
 		}
 		return c.varAt(pv, m)
 	case map[string]interface{}:
-		mm, ok := m.(map[string]interface{})
-		if !ok {
-			return false
+		mm, is := m.(map[string]interface{})
+		if !is {
+			return 0
 		}
 		if len(pv) == 0 {
-			return true
+			return plainOK
 		}
 		if len(pv) == 1 {
 			for k, v := range pv {
@@ -193,96 +254,115 @@ func (c *checker) contained(p, m interface{}) bool {
 				}
 			}
 		}
-		for k, v := range pv {
+		keys := make([]string, 0, len(pv))
+		for k := range pv {
+			keys = append(keys, k)
+		}
+		sort.Strings(keys)
+		w := plainOK
+		for _, k := range keys {
+			v := pv[k]
 			if IsVar(k) {
-				return false // outside the supported fragment
+				return 0 // outside the supported fragment
 			}
 			mv, have := mm[k]
 			if !have {
 				if IsOptional(v) {
 					continue
 				}
-				return false
+				return 0
 			}
-			if !c.contained(v, mv) {
-				return false
+			w = conj(w, c.contained(v, mv))
+			if w == 0 {
+				return 0
 			}
 		}
-		return true
+		return w
 	case []interface{}:
-		ma, ok := m.([]interface{})
-		if !ok {
-			return false
+		ma, is := m.([]interface{})
+		if !is {
+			return 0
 		}
 		used := make([]bool, len(ma))
 		return c.inject(pv, 0, ma, used)
 	}
-	return false
+	return 0
 }
 
 // inject: pattern elements i.. matched by distinct, unused message elements;
 // an optional variable element may stay unmatched.
-func (c *checker) inject(pa []interface{}, i int, ma []interface{}, used []bool) bool {
+func (c *checker) inject(pa []interface{}, i int, ma []interface{}, used []bool) wset {
 	if i == len(pa) {
-		return true
+		return plainOK
 	}
+	var out wset
 	for j := range ma {
-		if used[j] || !c.contained(pa[i], ma[j]) {
+		if used[j] {
+			continue
+		}
+		w := c.contained(pa[i], ma[j])
+		if w == 0 {
 			continue
 		}
 		used[j] = true
-		if c.inject(pa, i+1, ma, used) {
-			return true
-		}
+		out |= conj(w, c.inject(pa, i+1, ma, used))
 		used[j] = false
+		if out&c.full != 0 || (len(c.q) == 0 && out != 0) {
+			return out
+		}
 	}
 	if IsOptional(pa[i]) {
-		return c.inject(pa, i+1, ma, used)
+		out |= c.inject(pa, i+1, ma, used)
 	}
-	return false
+	return out
 }
 
-func (c *checker) propVar(k string, v interface{}, mm M) bool {
+func (c *checker) propVar(k string, v interface{}, mm M) wset {
 	if k == "?" {
+		var out wset
 		for _, mv := range mm {
-			if c.contained(v, mv) {
-				return true
-			}
+			out |= c.contained(v, mv)
 		}
-		return false
+		return out
 	}
-	rv, ok := c.R[k]
-	if !ok {
-		return false
+	rv, have := c.R[k]
+	if !have {
+		return 0
 	}
-	key, ok := rv.(string)
-	if !ok {
-		return false
+	key, is := rv.(string)
+	if !is {
+		return 0
 	}
 	mv, have := mm[key]
-	return have && c.contained(v, mv)
+	if !have {
+		return 0
+	}
+	return conj(c.just(k, true), c.contained(v, mv))
 }
 
-func (c *checker) varAt(v string, m interface{}) bool {
+func (c *checker) varAt(v string, m interface{}) wset {
 	if v == "?" {
-		return true
+		return plainOK
 	}
-	if op, plain, ok := ParseIneq(v); ok {
+	if op, plain, isIneq := ParseIneq(v); isIneq {
 		mf, mnum := num(m)
 		if b, given := c.B[v]; given {
 			if bf, bnum := num(b); bnum && mnum {
 				if !rel(op, mf, bf) {
-					return false
+					return 0
 				}
 				if pb, pgiven := c.B[plain]; pgiven {
 					if pf, pnum := num(pb); pnum {
-						return pf == mf
+						return ok(pf == mf)
 					}
-					return true // non-numeric plain counterpart given: the statement only asks for the relation
+					return plainOK // non-numeric plain counterpart given: the statement only asks for the relation
 				}
 				rp, have := c.R[plain]
 				rf, isnum := num(rp)
-				return have && isnum && rf == mf
+				if have && isnum && rf == mf {
+					return c.just(plain, true)
+				}
+				return 0
 			}
 			return c.containedValue(b, m)
 		}
@@ -290,27 +370,33 @@ func (c *checker) varAt(v string, m interface{}) bool {
 		// number reads it as an inequality; accept either reading
 		rv, have := c.R[v]
 		if !have {
-			return false
+			return 0
 		}
-		if c.containedValue(rv, m) {
-			return true
+		var out wset
+		if c.containedValue(rv, m) != 0 {
+			out |= c.just(v, Equal(rv, m))
 		}
 		if bf, bnum := num(rv); bnum && mnum && rel(op, mf, bf) {
 			rp, have := c.R[plain]
 			rf, isnum := num(rp)
-			return have && isnum && rf == mf
+			if have && isnum && rf == mf {
+				out |= c.just(plain, true)
+			}
 		}
-		return false
+		return out
 	}
 	rv, have := c.R[v]
 	if !have {
-		return false
+		return 0
 	}
-	return c.containedValue(rv, m)
+	if c.containedValue(rv, m) == 0 {
+		return 0
+	}
+	return c.just(v, Equal(rv, m))
 }
 
 // containedValue: a bound value used as a sub-pattern (values hold no variables).
-func (c *checker) containedValue(val, m interface{}) bool {
+func (c *checker) containedValue(val, m interface{}) wset {
 	return c.contained(val, m)
 }
 
